@@ -83,6 +83,55 @@ func prepared(R int, pw string) ([]byte, bool) {
 	return b, true
 }
 
+
+// ---- objects that are not Native but render as PDF strings ---------------------------------------------------
+
+// renderStr / renderNest are Objects defined outside the library: all the Writer knows about them is AsPDF
+type renderStr struct{ b []byte }
+
+func (r renderStr) AsPDF(pdf.OutputOptions) pdf.Native { return pdf.String(append([]byte{}, r.b...)) }
+
+type renderNest struct{ b []byte }
+
+func (r renderNest) AsPDF(pdf.OutputOptions) pdf.Native {
+	return pdf.Array{pdf.String(append([]byte{}, r.b...)), pdf.Dict{"W": renderStr{r.b}}, pdf.TextString("t-" + string(r.b))}
+}
+
+func freshS(b []byte) pdf.String { return pdf.String(append([]byte{}, b...)) }
+
+func printableASCII(b []byte) bool {
+	for _, c := range b {
+		if c < 0x20 || c > 0x7e {
+			return false
+		}
+	}
+	return len(b) > 0
+}
+
+// fresh returns an object which renders as (or, for renderNest, contains) the string b: a pdf.String, or one of the
+// typed wrappers - pdf.TextString, an Object whose AsPDF yields a String, one whose AsPDF yields an array with a
+// string, a dictionary with a wrapped string and a TextString.  The choice depends on b only, so that the value
+// written and the value expected are built alike.
+func fresh(b []byte) pdf.Object {
+	h := 0
+	for _, c := range b {
+		h = (h*31 + int(c)) % 1000003
+	}
+	switch h % 7 {
+	case 3:
+		if printableASCII(b) {
+			return pdf.TextString(string(b))
+		}
+	case 4:
+		return renderStr{append([]byte{}, b...)}
+	case 5:
+		if printableASCII(b) {
+			return renderNest{append([]byte{}, b...)}
+		}
+	}
+	return freshS(b)
+}
+
 // ---- documents ----------------------------------------------------------------------
 
 type config struct {
@@ -126,6 +175,8 @@ func render(obj pdf.Object) string {
 	switch x := obj.(type) {
 	case nil:
 		return "n"
+	case pdf.TextString, pdf.Date, renderStr, renderNest:
+		return render(x.(pdf.Object).AsPDF(0)) // what the object is, is what it renders as
 	case pdf.String:
 		return "S" + common.Hex([]byte(x))
 	case pdf.Name:
@@ -191,9 +242,8 @@ func writeDocument(e *common.Env, cfg config) (*document, error) {
 	body2 := bytes.Repeat(marker(e, "body"), 1+e.Rand.IntN(6))
 	doc.title = string(marker(e, "title"))
 
-	fresh := func(b []byte) pdf.String { return pdf.String(append([]byte{}, b...)) }
 	objA := func() pdf.Dict {
-		tw := fresh(m["tw"]) // the same String value twice in one object
+		tw := freshS(m["tw"]) // the same String value twice in one object
 		return pdf.Dict{
 			"S":     fresh(m["s"]),
 			"Arr":   pdf.Array{fresh(m["a"]), pdf.Dict{"X": fresh(m["x"])}, pdf.Array{fresh(m["n"]), pdf.Integer(7)}},
